@@ -17,6 +17,13 @@ CHECKS = {
         "Bounds: 3 design points, histories <= 4 (quick) / 6 + 150 random of length 12 (thorough); tolerances rel 1e-9; model kinds listed in evidence. " + TRUSTED,
         "5 C03, 3.3, 4.1, 4.4",
     ),
+    "C05": (
+        "model_checking",
+        "TLC exhaustive check of the OASTopology ring system (closure, cancellation, horseshoe strength, ghost = mirror) + every emitted table interpreted by an independent Biot-Savart solver and compared with all VLM intermediates of the real code",
+        "OASTopology is checked for every admissible list of surfaces in the box; for the lists the harness runs, TLC emits the lattice/ring/fold/offset tables and an independently written Biot-Savart + Kutta-Joukowski interpreter evaluates them on the input meshes; coll/force points, vortex meshes, influence matrices, AIC, rhs, circulations, horseshoe circulations, local velocities and sectional forces of the real VLMStates group must agree to 1e-9, and the normal velocity computed with the reference kernel and the code's circulations must vanish.",
+        "Bounds: nx<=3, ny<=4, <=3 surfaces quick (nx<=4, ny<=7 thorough); random non-degenerate meshes of 7 shape classes, |alpha|,|beta|<=15 deg, rotation rates on half the cases, ground effect, left/right halves. " + TRUSTED,
+        "5 C05, 3.5, 4.3",
+    ),
 }
 PENDING = {}
 
